@@ -27,37 +27,78 @@ def i32(opt, v):
     return [opt, "i32", v]
 
 
+def _run_chunk(ctx, chunk, tag, env, hard_timeout):
+    """Run one list of scenarios in `vh sock` processes. A process that does not end within the sum of
+    its scenarios' deadlines is killed: what it finished is kept, the scenario it was in is reported as
+    hung (a live-lock in the code under test is data, not a tool failure) and the rest runs in a new
+    process. Returns one result per scenario."""
+    import subprocess
+    import time
+    results = []
+    rest = list(chunk)
+    part = 0
+    t_end = time.time() + hard_timeout
+    while rest:
+        part += 1
+        path = os.path.join(ctx.work, "sc_%s_p%d.jsonl" % (tag, part))
+        out = os.path.join(ctx.work, "sc_%s_p%d.out" % (tag, part))
+        vlib.write_jsonl(path, rest)
+        if os.path.exists(out):
+            os.remove(out)
+        penv = dict(os.environ)
+        penv["VERIF_SEED"] = str(ctx.seed)
+        penv.update(env or {})
+        budget = sum((sc.get("deadline_ms") or 30000) for sc in rest) / 1000.0 + 20 + 2 * len(rest)
+        budget = min(budget, max(t_end - time.time(), 30))
+        p = subprocess.Popen([vlib.VH, "sock", path, out], cwd=vlib.WORK, env=penv, stdout=subprocess.PIPE, stderr=subprocess.STDOUT)
+        killed = False
+        try:
+            so, _ = p.communicate(timeout=budget)
+        except subprocess.TimeoutExpired:
+            p.kill()
+            so, _ = p.communicate()
+            killed = True
+        done = []
+        if os.path.exists(out):
+            for line in open(out):
+                line = line.strip()
+                if not line:
+                    continue
+                try:
+                    done.append(json.loads(line))
+                except ValueError:
+                    break                      # a line cut short by the kill
+        if not killed:
+            if p.returncode != 0:
+                raise vlib.ToolError("vh sock failed rc=%d: %s" % (p.returncode, so.decode(errors="replace")[-400:]))
+            if len(done) != len(rest):
+                raise vlib.ToolError("vh sock returned %d results for %d scenarios" % (len(done), len(rest)))
+            results += done
+            rest = []
+        else:
+            done = done[:len(rest)]
+            results += done
+            if len(done) < len(rest):
+                stuck = rest[len(done)]
+                vlib.log("NOTE scenario %s did not end within its deadline: harness process killed" % stuck.get("name"))
+                results.append({"name": stuck.get("name"), "records": [], "panics": [], "wall_ms": int(budget * 1000),
+                                "hung": ["harness: the scenario never ended, not even at its deadline (a task spins without yielding?) - process killed"]})
+            rest = rest[len(done) + 1:]
+            if time.time() > t_end and rest:
+                raise vlib.ToolError("vh sock: time budget exhausted with %d scenarios left" % len(rest))
+    return results
+
+
 def run_scenarios(ctx, scenarios, tag, timeout=1800, jobs=1, env=None):
     """Run scenarios with `vh sock`. jobs > 1 runs several harness processes side by side (only for
     scenarios whose oracles do not depend on timing)."""
-    import subprocess
+    from concurrent.futures import ThreadPoolExecutor
     if jobs <= 1 or len(scenarios) < 2 * jobs:
-        path = os.path.join(ctx.work, "sc_%s.jsonl" % tag)
-        out = os.path.join(ctx.work, "sc_%s.out" % tag)
-        vlib.write_jsonl(path, scenarios)
-        vlib.vh(["sock", path, out], timeout=timeout, env=dict({"VERIF_SEED": str(ctx.seed)}, **(env or {})))
-        res = [json.loads(l) for l in open(out) if l.strip()]
+        res = _run_chunk(ctx, scenarios, tag, env, timeout)
     else:
         chunks = [scenarios[i::jobs] for i in range(jobs)]
-        procs = []
-        for j, ch in enumerate(chunks):
-            path = os.path.join(ctx.work, "sc_%s_%d.jsonl" % (tag, j))
-            out = os.path.join(ctx.work, "sc_%s_%d.out" % (tag, j))
-            vlib.write_jsonl(path, ch)
-            penv = dict(os.environ)
-            penv["VERIF_SEED"] = str(ctx.seed)
-            penv.update(env or {})
-            procs.append((subprocess.Popen([vlib.VH, "sock", path, out], cwd=vlib.WORK, env=penv, stdout=subprocess.PIPE, stderr=subprocess.STDOUT), out, len(ch)))
-        parts = []
-        for p, out, n in procs:
-            try:
-                so, _ = p.communicate(timeout=timeout)
-            except subprocess.TimeoutExpired:
-                p.kill()
-                raise vlib.ToolError("vh sock timed out")
-            if p.returncode != 0:
-                raise vlib.ToolError("vh sock failed rc=%d: %s" % (p.returncode, so.decode(errors="replace")[-400:]))
-            parts.append([json.loads(l) for l in open(out) if l.strip()])
+        with ThreadPoolExecutor(max_workers=jobs) as ex:
+            parts = list(ex.map(lambda jc: _run_chunk(ctx, jc[1], "%s_%d" % (tag, jc[0]), env, timeout), enumerate(chunks)))
         res = [None] * len(scenarios)
         for j, part in enumerate(parts):
             for k, r in enumerate(part):
